@@ -72,10 +72,20 @@ func (gowrapSuite) Nontrivial(tags map[string]int) bool {
 
 type lateCtx struct {
 	context.Context
-	gate chan struct{}
+	gate    chan struct{}
+	started chan struct{}
 }
 
-func (l lateCtx) Done() <-chan struct{} { <-l.gate; return l.Context.Done() }
+// Done holds its caller back only once the wrapped function is under way (a library that asks for Done() before it
+// starts the function must not be blocked there): it gives the function 20 ms to start, then waits for the gate
+func (l lateCtx) Done() <-chan struct{} {
+	select {
+	case <-l.started:
+		<-l.gate
+	case <-time.After(20 * time.Millisecond):
+	}
+	return l.Context.Done()
+}
 
 func helperGoroutines() int {
 	buf := make([]byte, 1<<20)
@@ -165,10 +175,10 @@ func runGoScenario(m map[string]string) string {
 	// the wrapped function has finished (returned or panicked) and its goroutine has wound down: the caller reaches its
 	// select with the outcome already buffered
 	lateGate := make(chan struct{})
-	if ctxMode == "late" {
-		ctx = lateCtx{ctx, lateGate}
-	}
 	started := make(chan struct{})
+	if ctxMode == "late" {
+		ctx = lateCtx{ctx, lateGate, started}
+	}
 	release := make(chan struct{})
 	finished := make(chan struct{})
 	sameCtx := "x"
